@@ -54,7 +54,11 @@ func firstError(pkgs []*packages.Package, err error) string {
 	msg := ""
 	packages.Visit(pkgs, nil, func(p *packages.Package) {
 		if msg == "" && strings.HasPrefix(p.PkgPath, ModPath) && len(p.Errors) > 0 {
-			msg = p.Errors[0].Error()
+			for i, e := range p.Errors {
+				if i < 4 {
+					msg += strings.ReplaceAll(e.Error(), "\n", " | ") + " ;; "
+				}
+			}
 		}
 	})
 	return msg
@@ -118,7 +122,7 @@ func LoadOverlay(dir string, goos string, initial map[string][]byte) (*Prog, err
 				normLog = append(normLog, log...)
 			}
 		}
-		for round := 0; round < 8; round++ {
+		for round := 0; round < 16; round++ {
 			changed, log := NormalizeOverlay(pkgs, overlay)
 			if len(changed) == 0 {
 				break
